@@ -256,9 +256,90 @@ fn dec_by_name(ty: &str, var: &Variable, val: &Value) -> (String, String, bool) 
     }
 }
 
+// ---- real std / derived types (their Serialize / Deserialize impls may branch on properties of the format) ----
+#[derive(Debug, PartialEq, Deserialize, DSerialize, Clone)]
+struct Host { name: String, addr: std::net::IpAddr, peers: Vec<std::net::SocketAddr>, ttl: std::time::Duration }
+#[derive(Debug, PartialEq, Deserialize, DSerialize, Clone)]
+enum Net { Addr(std::net::IpAddr), Pair(std::net::Ipv4Addr, u16), Named { at: std::net::Ipv6Addr } }
+
+fn real<T>(x: T) -> Value
+where
+    T: serde::de::DeserializeOwned + std::fmt::Debug + Serialize,
+{
+    let lib = Variable::from_serializable(&x);
+    let sj = serde_json::to_value(&x);
+    let image = match &lib {
+        Ok(v) => json!({"ok":tag_var(v)}),
+        Err(_) => json!({"err":true}),
+    };
+    let sjimage = match &sj {
+        Ok(v) => json!({"ok":tag_json(v)}),
+        Err(_) => json!({"err":true}),
+    };
+    let expr = jmespath::compile("@").unwrap();
+    let searched = match expr.search(&x) {
+        Ok(r) => json!({"ok":tag_var(&r)}),
+        Err(_) => json!({"err":true}),
+    };
+    // decode back: from the library's own image, and from the JSON text serde_json writes for the value (text-originated)
+    let show = |r: Result<T, String>| r.map(|y| format!("Ok({:?})", y)).unwrap_or_else(|_| "Err".into());
+    let dec_own = show(lib.clone().map_err(|e| e.to_string()).and_then(|v| T::deserialize(v).map_err(|e| e.to_string())));
+    let text = sj.as_ref().map(|v| v.to_string()).unwrap_or_else(|_| "null".into());
+    let dec_text = show(Variable::from_json(&text).and_then(|v| T::deserialize(v).map_err(|e| e.to_string())));
+    let dec_sj = show(serde_json::from_str::<T>(&text).map_err(|e| e.to_string()));
+    json!({"image":image,"serde_json":sjimage,"searched":searched,"dec_own":ascii_cps(&dec_own),"dec_text":ascii_cps(&dec_text),
+           "dec_serde_json":ascii_cps(&dec_sj),"orig":ascii_cps(&format!("Ok({:?})", x))})
+}
+
+pub const REALS: [&str; 30] = ["IpAddr4", "IpAddr6", "Ipv4Addr", "Ipv6Addr", "SocketAddr4", "SocketAddr6", "Duration", "PathBuf", "NonZeroU8", "Wrapping",
+    "Reverse", "BTreeSet", "VecDeque", "Range", "BoundIn", "BoundUn", "SomeUnit", "ResultOk", "ResultErr", "BoxStr", "CowStr", "Arr3", "Nested", "Phantom",
+    "Host", "NetAddr", "NetPair", "NetNamed", "MapIp", "OptIp"];
+
+fn real_by_name(name: &str) -> Value {
+    use std::net::*;
+    let v4 = Ipv4Addr::new(10, 1, 2, 3);
+    let v6: Ipv6Addr = "2001:db8::1".parse().unwrap();
+    match name {
+        "IpAddr4" => real(IpAddr::V4(v4)),
+        "IpAddr6" => real(IpAddr::V6(v6)),
+        "Ipv4Addr" => real(v4),
+        "Ipv6Addr" => real(v6),
+        "SocketAddr4" => real(SocketAddr::new(IpAddr::V4(v4), 80)),
+        "SocketAddr6" => real(SocketAddr::new(IpAddr::V6(v6), 443)),
+        "Duration" => real(std::time::Duration::new(5, 7)),
+        "PathBuf" => real(std::path::PathBuf::from("/tmp/x y")),
+        "NonZeroU8" => real(std::num::NonZeroU8::new(7).unwrap()),
+        "Wrapping" => real(std::num::Wrapping(300u32)),
+        "Reverse" => real(std::cmp::Reverse(5i64)),
+        "BTreeSet" => real([3u8, 1, 2].iter().cloned().collect::<std::collections::BTreeSet<u8>>()),
+        "VecDeque" => real([1i32, -2].iter().cloned().collect::<std::collections::VecDeque<i32>>()),
+        "Range" => real(1u32..4u32),
+        "BoundIn" => real(std::ops::Bound::Included(3i32)),
+        "BoundUn" => real(std::ops::Bound::<i32>::Unbounded),
+        "SomeUnit" => real(Some(())),
+        "ResultOk" => real(Ok::<i32, String>(1)),
+        "ResultErr" => real(Err::<i32, String>("e".into())),
+        "BoxStr" => real(String::from("b\u{1F600}").into_boxed_str()),
+        "CowStr" => real(std::borrow::Cow::<'static, str>::Owned("c".into())),
+        "Arr3" => real([1u8, 2, 255]),
+        "Nested" => real((1i8, (2u8, String::from("s")), [Some(1.5f64), None])),
+        "Phantom" => real(std::marker::PhantomData::<i32>),
+        "Host" => real(Host { name: "h".into(), addr: IpAddr::V4(v4), peers: vec![SocketAddr::new(IpAddr::V6(v6), 1)], ttl: std::time::Duration::new(1, 0) }),
+        "NetAddr" => real(Net::Addr(IpAddr::V6(v6))),
+        "NetPair" => real(Net::Pair(v4, 8080)),
+        "NetNamed" => real(Net::Named { at: v6 }),
+        "MapIp" => real([(String::from("a"), IpAddr::V4(v4))].iter().cloned().collect::<BTreeMap<String, IpAddr>>()),
+        "OptIp" => real(Some(IpAddr::V4(v4))),
+        _ => json!({"harness":ascii_cps("unknown real type")}),
+    }
+}
+
 pub fn run_case(case: &Value) -> Value {
     let mut obs = case.clone();
-    let out = if case["kind"] == "ser" {
+    let out = if case["kind"] == "real" {
+        let name = case["name"].as_str().unwrap_or("").to_string();
+        guarded(|| real_by_name(&name))
+    } else if case["kind"] == "ser" {
         guarded(|| {
             let node = Node(&case["tree"]);
             let lib = Variable::from_serializable(&node);
